@@ -48,6 +48,12 @@ fn main() {
         return;
     }
     let opt = |name: &str| args.iter().position(|a| a == name).and_then(|p| args.get(p + 1)).cloned();
+    if cmd == "c03-worker" {
+        let from: usize = opt("--from").and_then(|s| s.parse().ok()).unwrap_or(0);
+        let to: usize = opt("--to").and_then(|s| s.parse().ok()).unwrap_or(usize::MAX);
+        let dump: Option<usize> = opt("--dump").and_then(|s| s.parse().ok());
+        std::process::exit(checks::c03::worker(tier, from, to, dump));
+    }
     if cmd == "c04-emit" {
         let out = opt("--out").unwrap_or_else(|| usage());
         let upto: usize = opt("--upto").and_then(|s| s.parse().ok()).unwrap_or(usize::MAX);
